@@ -659,7 +659,7 @@ pub fn check_batch_workers(ctx: &Ctx, cli: &str, i: usize, c: &frontends::CliCas
         c2.rayon_threads = t;
         let dir = format!("{}/work/c07-{}-{}-{}", ctx.verif_dir, std::process::id(), i, t);
         let ro = frontends::invoke(ctx, &cli, &c2, &dir);
-        let mut files: Vec<(String, Vec<u8>)> = std::fs::read_dir(format!("{}/out", dir))
+        let mut files: Vec<(String, Vec<u8>)> = std::fs::read_dir(format!("{}/{}", dir, frontends::OUT_DIR))
             .map(|d| d.filter_map(|e| e.ok()).map(|e| (e.file_name().to_string_lossy().to_string(), std::fs::read(e.path()).unwrap_or_default())).collect())
             .unwrap_or_default();
         files.sort();
@@ -865,6 +865,22 @@ pub fn run_c07(ctx: &Ctx) -> Outcome {
                     c
                 })
                 .collect();
+            let mut base = base;
+            // ... and a few batches of very long pickles (anything that scales a knob by the number of workers or
+            // of samples needs large values to show)
+            let heavy: &[usize] = if ctx.thorough() { &[10_000, 20_000, 40_000] } else { &[10_000] };
+            for (k, &n_ops) in heavy.iter().enumerate() {
+                if let Some(mut c) = base.first().cloned() {
+                    c.min = Some(n_ops);
+                    c.max = Some(n_ops + 100);
+                    c.protocol = Some(((ctx.seed as usize + k) % 6) as u8);
+                    c.mutators = frontends::MutSpec::None;
+                    c.rate = None;
+                    c.preexisting = false;
+                    c.mode = frontends::Mode::Batch { samples: 17 + k, fault_at: None };
+                    base.push(c);
+                }
+            }
             let items: Vec<(usize, frontends::CliCase)> = base.into_iter().enumerate().collect();
             let (st, found) = run_enum(items, |(i, c), st| check_batch_workers(ctx, &cli, *i, c, st));
             let mut st2 = st;
